@@ -32,21 +32,32 @@ SKY = {'circle': 'CircleSkyRegion', 'ellipse': 'EllipseSkyRegion', 'rectangle': 
        'eannulus': 'EllipseAnnulusSkyRegion', 'rannulus': 'RectangleAnnulusSkyRegion'}
 
 
-def build_sky(m, wcs, cx, cy, unit_variant=0):
-    """Real sky region from the model's sky description (sizes in model units = quarter pixels x scale)."""
+def build_sky(m, wcs, cx, cy, unit_variant=0, rframe=None):
+    """Real sky region from the model's sky description (sizes in model units = quarter pixels x scale).
+
+    rframe: give the region in that celestial frame instead of the image's.  The stated angle is relative to the local north of the
+    frame the region is given in, so it is reduced by the position angle (measured with astropy alone) that this north makes with
+    the north of the image's frame at the centre - the pixel image the WCS dictates is then the same."""
     import astropy.units as u
 
     import regions as R
     c = wcs.pixel_to_world(cx, cy)
-    q = lambda v: ((v * BASE_ARCSEC / U) * u.arcsec).to([u.arcsec, u.deg, u.arcmin][unit_variant % 3])  # noqa: sizes handed over in different units
+    delta = 0 * u.deg
+    if rframe is not None:
+        cr = c.transform_to(rframe)
+        delta = c.position_angle(cr.directional_offset_by(0 * u.deg, 2 * u.arcsec).transform_to(c.frame))
+        c = cr
+    units = [u.arcsec, u.deg, u.arcmin]
+    mixed = (unit_variant // 2) % 2          # every parameter in its own unit (inner radius in arcmin, outer in arcsec, ...)
+    q = lambda v, j=0: ((v * BASE_ARCSEC / U) * u.arcsec).to(units[(unit_variant + j * mixed) % 3])  # noqa: sizes handed over in different units
     k = m['k']
     if k == 'circle':
         return R.CircleSkyRegion(c, q(m['r']))
     if k in ('ellipse', 'rectangle'):
-        return getattr(R, SKY[k])(c, q(m['w']), q(m['h']), angle=ang(m['d']))
+        return getattr(R, SKY[k])(c, q(m['w']), q(m['h'], 1), angle=ang(m['d']) - delta)
     if k == 'cannulus':
-        return R.CircleAnnulusSkyRegion(c, q(m['r1']), q(m['r2']))
-    return getattr(R, SKY[k])(c, q(m['w1']), q(m['w2']), q(m['h1']), q(m['h2']), angle=ang(m['d']))
+        return R.CircleAnnulusSkyRegion(c, q(m['r1']), q(m['r2'], 1))
+    return getattr(R, SKY[k])(c, q(m['w1']), q(m['w2'], 1), q(m['h1'], 2), q(m['h2'], 3), angle=ang(m['d']) - delta)
 
 
 def check(ctx, st, idx, rnd, family, var=0):
@@ -74,7 +85,11 @@ def check(ctx, st, idx, rnd, family, var=0):
                 sky.to_pixel(wcs)
                 sky.center = wcs.pixel_to_world(cx, cy)
             else:
-                sky = build_sky(msky, wcs, cx, cy, var)
+                # every third of these: the region is given in another celestial frame than the image's ("independently of ... which
+                # celestial frame it uses"; the angle is relative to the north of the region's own frame)
+                rframe = FRAMES[(idx + 1 + (var // 21) % 2) % 3] if (var // 7) % 3 == 1 else None
+                case['region_frame'] = rframe or frame
+                sky = build_sky(msky, wcs, cx, cy, var, rframe)
             if (var // 3) % 3 == 1:
                 sky.to_pixel(wcs)            # an earlier conversion (or a contains() call) must not change the region
             pix = sky.to_pixel(wcs)
